@@ -20,15 +20,17 @@ mut_failed=$(grep -E "^test .*FAILED" /tmp/sv_$name.mut.log | sed 's/ \.\.\. FAI
 echo "orig_fail_lines=$orig_fail  failing_with_change=$mut_failed"
 rm -rf $wt/target
 # run checks against a scratch copy with only the source change
-rm -rf /tmp/rm; mkdir -p /tmp/rm && rsync -a --exclude target --exclude .git /repo/ /tmp/rm/ && (cd /tmp/rm && git init -q 2>/dev/null; patch -p1 -s < $src/patch.diff) || echo "PATCH FAILED on scratch copy"
+rm -rf /tmp/rm_$name; mkdir -p /tmp/rm_$name && rsync -a --exclude target --exclude .git /repo/ /tmp/rm_$name/ && (cd /tmp/rm_$name && git init -q 2>/dev/null; patch -p1 -s < $src/patch.diff) || echo "PATCH FAILED on scratch copy"
 mkdir -p /verif/seeded/$name
 cp $src/patch.diff $src/demo.diff /verif/seeded/$name/
 [ -f $src/NOTES.md ] && cp $src/NOTES.md /verif/seeded/$name/NOTES.md
 res=""
 for p in ${props//,/ }; do
-  out=$(cd /verif && VERIF_REPO=/tmp/rm ./check $p 2>&1); rc=$?
+  out=$(cd /verif && VERIF_REPO=/tmp/rm_$name ./check $p 2>&1); rc=$?
   echo "$out" | grep -E "VIOLATION|FAILED-OBLIGATION|UNDECIDED|^OK" | head -6
   res="$res $p:rc=$rc"
 done
 echo "CHECKS:$res"
 git -C /repo worktree remove --force $wt
+rm -rf /tmp/rm_$name
+rm -rf /verif/build/scratch_tmp_rm_$name
